@@ -289,10 +289,10 @@ bool comp_reset_comp_data(zckCtx *zck) {
     if(zck->comp.data) {
         free(zck->comp.data);
         zck->comp.data = NULL;
-        zck->comp.data_size = 0;
-        zck->comp.data_loc = 0;
-        zck->comp.data_idx = NULL;
     }
+    zck->comp.data_size = 0;
+    zck->comp.data_loc = 0;
+    zck->comp.data_idx = NULL;
     return true;
 }
 
